@@ -1219,3 +1219,34 @@ def r07_17_sibling_getters_agree(ctx: Ctx) -> RuleResult:
             loc = ctx.loc(owner, c) if hasattr(owner, "params") else f"{owner.mod.rel}:{c.lineno}"
             rr.fail(q, f"slot `{pn}` of {fn}: this parser's getter returns `{ex}`, its sibling(s) `{major}`; the shared handler indexes the same tables / writes the same digits for both", loc)
     return rr
+
+
+@rule("C07")
+def r07_18_optional_fraction_gives_back_the_separator(ctx: Ctx) -> RuleResult:
+    """`.FFF` / `;FFF`: for a zero fraction the formatter REMOVES the separator it wrote (the truncating fraction formatter drops a
+    trailing separator), so the text goes straight on with whatever follows in the pattern.  The parse action of the fraction
+    therefore meets the next literal; if that literal is itself `.` or `,` it is matched as the fraction's separator and a digit
+    is demanded - the pattern `ss;FFF, m` cannot parse the `00, 0` it produced.  A parse action that fails after the separator
+    matched, without moving the cursor back when no digit follows, has this hole."""
+    rr = RuleResult("R07.18", "optional fraction: when the matched separator is not followed by a digit the parse action gives the separator back (the formatter omits it for a zero fraction, so the next literal may be a separator)", min_instances=2)
+    M = ctx.M
+    c = M.cls("_TimePatternHelper", required=True)
+    for f in sorted(set(M.func_of_node.values()), key=lambda x: x.qual):
+        if isinstance(f.node, ast.Lambda) or f.mod is not c.mod or f.name != "parse_action":
+            continue
+        calls = [n for n in own_nodes(f.node) if isinstance(n, ast.Call) and isinstance(n.func, ast.Attribute)]
+        matches = [n for n in calls if n.func.attr == "_match" and n.args and isinstance(n.args[0], ast.Constant) and n.args[0].value in (".", ",")]
+        frac = [n for n in calls if n.func.attr == "_parse_fraction"]
+        if not matches or not frac:
+            continue
+        rr.inst()
+        rewinds = [n for n in calls if n.func.attr in ("move", "_move", "move_previous", "_move_previous")]
+        outer = f.parent
+        while outer is not None and outer.parent is not None and outer.cls is None:
+            outer = outer.parent
+        where = (outer.qual if outer is not None else f.qual)
+        if rewinds:
+            rr.ok({"handler": where, "rewinds": len(rewinds)})
+        else:
+            rr.fail(where, "the fraction's parse action keeps the matched separator when no digit follows: a zero fraction is written without its separator, so a pattern whose next literal is `.` or `,` (`ss;FFF, m` -> '00, 0') cannot parse the text it produced", ctx.loc(f))
+    return rr
